@@ -15,6 +15,9 @@ import GrogModel.Lemmas.ComposeStores
 import GrogModel.Props.C01
 import GrogModel.Props.C07
 import GrogModel.Props.C08
+import GrogModel.Props.C10
+import GrogModel.Props.C06
+import GrogModel.Lemmas.ComposeTree
 set_option linter.unusedSectionVars false
 set_option linter.unusedVariables false
 namespace Grog.Compose
@@ -256,9 +259,153 @@ example :
     · exact ⟨fun h => (by cases h), fun _ => rfl⟩
     · exact ⟨fun _ k r _ hr => (by simp [exCd2] at hr), fun h => (by cases h)⟩
   · intro m ns k b hm
-    simp only [List.mem_cons, Remote.Ev.localSet.injEq, reduceCtorEq, List.not_mem_nil, or_false, false_or] at hm
+    simp only [List.mem_cons, Remote.Ev.localSet.injEq, reduceCtorEq, List.not_mem_nil, or_false] at hm
     obtain ⟨_, rfl, rfl, rfl⟩ := hm
     exact ⟨fun h => (by cases h), fun _ => rfl⟩
 end Example2
+
+/-! ## C06 → C01: the concrete restore refines `Exec.restore` -/
+
+/-- The build semantics' workspace read off a concrete one: the value at a (workspace-relative) path is the canonical
+    serialisation of the object there. `comps` splits a path string into components; `canon` must not distinguish objects
+    with the same recursive listing. -/
+def absFS (comps : Exec.Path → Grog.Path) (canon : Entry → Val) (root : Entry) : Exec.FS :=
+  fun p => (root.get (comps p)).map canon
+
+/-- **Directory outputs: `restoreDir ∘ writeDir` refines `Exec.restore`.** Under the hypotheses of
+    `C06.restoreDir_writeDir` (every well-formed tree, every CAS holding what `writeDir` stored, every prior state whose
+    ancestors of the destination are not blocked), the abstraction of the workspace after the concrete restore is exactly
+    what the build semantics define a restore to be — `writeOuts`: the stored value at the output path, nothing else
+    changed — at the output path itself and at every path that diverges from it (inputs, check files and outputs of other
+    targets; `analysis` rejects nested outputs, C11). The stored value is what `collect` read when the output was cached:
+    `absFS … fs0 out`. This is the equation `Exec.restore` takes as a definition ("C06"). -/
+theorem restoreDir_refines_exec_restore (H : Bytes → Digest) (serD : Directory → Bytes) (serT : TreeMsg → Bytes)
+    (deT : Bytes → Option TreeMsg) (fs0 fs : Entry) (q : Grog.Path) (n : Name) (id : Bytes)
+    (es : List (Name × Entry)) (cas0 : Cas) (fuel : Nat)
+    (hsrc : fs0.get (q ++ [n]) = some (.dir es)) (hwf : (Entry.dir es).WF) (hfuel : depthList es < fuel)
+    (hserD : InjOnKids H serD serD es)
+    (hdeT : deT (serT (treeMsg H serD es)) = some (treeMsg H serD es))
+    (hcf : CollisionFree H (streams H serD serT es)) (hpar : Clear fs q)
+    (hprior : ∀ es', fs.get (q ++ [n]) = some (.dir es') →
+      (Entry.dir es').WF ∧ InjOnKids H serD serD es' ∧
+      (serT (treeMsg H serD es') = serT (treeMsg H serD es) → treeMsg H serD es' = treeMsg H serD es) ∧
+      CollisionFree H (streams H serD serT es ++ streams H serD serT es'))
+    (comps : Exec.Path → Grog.Path) (canon : Entry → Val) (hcanon : ∀ a b : Entry, a.Same b → canon a = canon b)
+    (out : Exec.Path) (hout : comps out = q ++ [n])
+    (cas : Cas) (hups : ∀ u ∈ (encList H serD es).ups, cas.get u.1 = some u.2)
+    (htree : cas.get (H (serT (treeMsg H serD es))) = some (serT (treeMsg H serD es))) :
+    absFS comps canon fs0 out = some (canon (.dir es)) ∧
+    ∃ fs', restoreDir H serD serT deT fuel (H (serT (treeMsg H serD es))) cas fs (q ++ [n]) = .ok fs' ∧
+      ∀ p, (p = out ∨ Diverge (q ++ [n]) (comps p)) →
+        absFS comps canon fs' p = writeOuts (absFS comps canon fs) [(⟨true, out⟩, canon (.dir es))] p := by
+  refine ⟨by simp [absFS, hout, hsrc], ?_⟩
+  obtain ⟨_, _, _, hres⟩ := C06.restoreDir_writeDir H serD serT deT fs0 fs q n id es cas0 fuel hsrc hwf hfuel hserD hdeT hcf hpar hprior
+  obtain ⟨fs', hr, r, hget, hsame⟩ := hres cas hups htree
+  refine ⟨fs', hr, ?_⟩
+  intro p hp
+  simp only [writeOuts]
+  rcases hp with rfl | hd
+  · simp [absFS, hout, hget, hcanon r _ hsame]
+  · have hne : p ≠ out := by
+      rintro rfl
+      obtain ⟨c, a, b, r1, r2, hab, h1, h2⟩ := hd
+      rw [hout, h1] at h2
+      have := List.append_cancel_left h2
+      simp at this
+      exact hab this.1
+    rw [upd_other _ _ _ _ hne]
+    simp only [absFS]
+    rw [restoreDir_frame H serD serT deT fuel _ cas fs fs' (q ++ [n]) (comps p) hd hr]
+
+/-- **File outputs: `restoreFile ∘ writeFile` refines `Exec.restore`** (bytes and executable bit are part of the value). -/
+theorem restoreFile_refines_exec_restore (H : Bytes → Digest) (fs0 fs : Entry) (q : Grog.Path) (n : Name) (id : Bytes)
+    (b : Bytes) (x : Bool) (cas0 : Cas)
+    (hsrc : fs0.get (q ++ [n]) = some (.file b x)) (hpar : Clear fs q)
+    (hdst : ∀ e, fs.get (q ++ [n]) = some e → ∃ b' x', e = .file b' x')
+    (hH : ∀ b' x', fs.get (q ++ [n]) = some (.file b' x') → H b' = H b → b' = b)
+    (comps : Exec.Path → Grog.Path) (canon : Entry → Val) (out : Exec.Path) (hout : comps out = q ++ [n])
+    (cas : Cas) (hcas : cas.get (H b) = some b) :
+    absFS comps canon fs0 out = some (canon (.file b x)) ∧
+    ∃ fs', restoreFile H .fixed (H b) x cas fs (q ++ [n]) = .ok fs' ∧
+      ∀ p, (p = out ∨ Diverge (q ++ [n]) (comps p)) →
+        absFS comps canon fs' p = writeOuts (absFS comps canon fs) [(⟨false, out⟩, canon (.file b x))] p := by
+  refine ⟨by simp [absFS, hout, hsrc], ?_⟩
+  obtain ⟨_, _, hres⟩ := C06.restoreFile_writeFile H fs0 fs q n id b x cas0 hsrc hpar hdst hH
+  obtain ⟨fs', hr, hget⟩ := hres cas hcas
+  refine ⟨fs', hr, ?_⟩
+  intro p hp
+  simp only [writeOuts]
+  rcases hp with rfl | hd
+  · simp [absFS, hout, hget]
+  · have hne : p ≠ out := by
+      rintro rfl
+      obtain ⟨c, a, b', r1, r2, hab, h1, h2⟩ := hd
+      rw [hout, h1] at h2
+      have := List.append_cancel_left h2
+      simp at this
+      exact hab this.1
+    rw [upd_other _ _ _ _ hne]
+    simp only [absFS]
+    rw [restoreFile_frame H .fixed (H b) x cas fs fs' (q ++ [n]) (comps p) hd hr]
+
+/-- a canonical form that is invariant under `Same` (it looks at the node at the root of the object only; the theorem
+    holds for every such function, e.g. a serialisation of the sorted recursive listing) -/
+def exCanon : Entry → Val
+  | .file b x => 0 :: (if x then 1 else 0) :: b
+  | .link t => 2 :: t
+  | .dir _ => [1]
+
+theorem exCanon_same (a b : Entry) (h : a.Same b) : exCanon a = exCanon b := by
+  have h0 := h []
+  simp only [Entry.nodeAt, Entry.get_nil, Option.map_some, Option.some.injEq] at h0
+  cases a <;> cases b <;> simp [Entry.node] at h0 <;> simp [exCanon, h0]
+
+/-- the additional hypotheses of the refinement theorems are satisfiable (the C06 hypotheses have their own example in
+    Props/C06.lean): a `Same`-invariant canonical form, a path splitter, an output path and two diverging observed paths -/
+example :
+    (∀ a b : Entry, a.Same b → exCanon a = exCanon b) ∧
+    Diverge ([[111], [117]] ++ [[116]]) [[111], [105], [110]] ∧ Diverge ([[111]] ++ [[116]]) [[115]] ∧
+    absFS (fun p => [p]) exCanon (.dir [([116], .file [7] true)]) [116] = some [0, 1, 7] := by
+  refine ⟨exCanon_same, ⟨[[111]], [117], [105], [[116]], [[110]], by decide, rfl, rfl⟩,
+    ⟨[], [111], [115], [[116]], [], by decide, rfl, rfl⟩, by decide⟩
+
+/-! ## C18: the build after an interrupt -/
+
+/-- **C18.next_build_ok.** An interrupted (or killed) `grog build` leaves (1) possibly a lock file and dead lock holders,
+    (2) a cache in which the interrupted process's in-flight writes landed or not, (3) a workspace with arbitrary content at
+    the output paths. The next `grog build`:
+      1. gets the workspace lock within nine of its own file-system calls once no other live process holds it — wherever
+         the interrupted process died in `Lock`/`Unlock`, whatever it left at the lock path (`C10.stale_never_blocks`);
+      2. reads a sound cache from the surviving store state — `es` is *any* history of the store model, in particular one
+         with `crash p landed` of the interrupted process at any point (`recovery_cache_sound`, C07);
+      3. therefore succeeds exactly when the clean build does and then produces byte-identical declared outputs
+         (`C01.build_eq_clean`): what the interrupted build did not finish is re-executed, nothing half-written is used. -/
+theorem next_build_ok {P : Params κ} (hG : Good P) (hfx : P.fx.gateChecks = true)
+    -- the lock
+    {sL : Lock.State} (hL : Lock.Reach sL) (me : Nat) (hme : (sL.pc me).inLoop) (hdead : ∀ j, j ≠ me → sL.pc j = .dead)
+    -- the cache after the interrupt
+    (cd : Codec κ) (tn : Lbl → Bool) (H : Bytes → Bytes)
+    (es : List Store.Ev) (s' : Store.State) (hr : Store.run H Store.init es = some s')
+    (hw : Store.BeginsSatisfy (WritesSound P cd) es)
+    -- the next build
+    (cfg : Cfg) (hm : cfg.minimal = false) (defs : Defs) (fs : FS) (order : List Lbl) (hwf : WF defs order) (fs0 : FS)
+    (hag : ∀ p, (∀ l ∈ order, ∀ t, defs l = some t → p ∉ outPaths t) → fs p = fs0 p) :
+    (∃ k, k ≤ 9 ∧ ∃ n, (Lock.solo me k sL).pc me = .holding n) ∧
+    CacheSound P (storeCache cd tn s') ∧
+    (let s := build P cfg ⟨defs, fs, storeCache cd tn s'⟩ order
+     let c := Spec.clean P.run defs fs0 order
+     (succeeded s order = true ↔ ∀ l ∈ order, c.ok l = some true) ∧
+     (succeeded s order = true → ∀ l ∈ order, ∀ t, defs l = some t → ∀ p ∈ outPaths t, s.fs p = c.fs p)) :=
+  ⟨C10.stale_never_blocks_all_dead hL me hme hdead,
+   recovery_cache_sound P cd tn H es s' hr hw,
+   recovery_next_build_eq_clean hG hfx cd tn H es s' hr hw cfg hm defs fs order hwf fs0 hag⟩
+
+/-- the hypotheses of `next_build_ok` are satisfiable: the lock state in which process 0 was killed while holding and
+    process 1 is in its acquisition loop (the example of `C10.stale_never_blocks_all_dead`), the store history of the first
+    example (a process killed while its result write is in flight), `Good` parameters, the empty selection -/
+example :
+    let sL := Lock.run (Lock.init true) [.step 0, .step 0, .step 0, .step 0, .step 0, .step 0, .step 1, .step 1, .crash 0]
+    sL.pc 0 = .dead ∧ (sL.pc 1).label = ".Close" ∧ Good exGoodP ∧ exGoodP.fx.gateChecks = true := by
+  refine ⟨by decide, by decide, exGoodP_good, rfl⟩
 
 end Grog.Compose
